@@ -82,7 +82,7 @@ func (r *SecretRef) String() string {
 // Presented is a concrete secret carried by a request together with the KB's
 // rating of it at the moment the request is sent.
 type Presented struct {
-	Role   string  // password otp code recovery token cookie state
+	Role   string // password otp code recovery token cookie state
 	Value  string
 	Known  *Secret // exact KB match (after mutation), nil if none
 	Status string  // Known.Status at send time
